@@ -420,8 +420,11 @@ def witness_search(prog: Program, rep, rule: str) -> Optional[str]:
                 if len(outs) != 1 or not isinstance(outs[0], Inst):
                     unreadable = f'result {outs!r}'
                     continue
-                tried += 1
                 fields = st.heap[outs[0].oid]
+                if not all(isinstance(fields.get(f), Inst) for f in ('begin', 'end', 'at_range')):
+                    unreadable = f'bounds {[fields.get(f) for f in ("begin", "end", "at_range")]!r} are not single rows in the abstract reading'
+                    continue
+                tried += 1
                 pos = {row.oid: i for i, row in enumerate(rows)}
                 b, e, a = (pos.get(getattr(fields.get(f), 'oid', None)) for f in ('begin', 'end', 'at_range'))
                 where = f'drops {list(drops)} (feet), target height 4 ft, target row {k}'
